@@ -19,7 +19,10 @@ pub struct Keyspace {
 }
 /// the handle is consistent with the world: same tree identity, the DATABASE's poison flag (C13: one flag per
 /// instance, established by Keyspace::from_database / create_new in U-META), its persist mode is the tree's
+/// the supervisor's `seqno` is the seqno counter (not the visible-seqno counter that the tracker owns)
+pub open spec fn sup_wf(s: &Supervisor) -> bool { !s.seqno.is_visible@ }
 pub open spec fn ks_wf(k: &Keyspace, w: World) -> bool {
+    &&& sup_wf(&k.supervisor)
     &&& w.trees.dom().contains(k.id) && k.tree.id@ == k.id
     &&& k.is_poisoned.id@ == w.db_poison
     &&& w.deleted.dom().contains(k.is_deleted.id@)
@@ -35,3 +38,6 @@ impl Keyspace {
 }
 /// the byte string a generic `K: Into<UserKey>` argument converts to (whatever conversion the caller's type defines)
 pub open spec fn into_slice<K: Into<Slice>>(key: K, k2: Slice) -> bool { call_ensures(<K as Into<Slice>>::into, (key,), k2) }
+/// structural well-formedness of the tracker handle (which counter / which atomics it holds) is established by
+/// SnapshotTracker::new and is visible only in U-TRACKER, where the real struct is extracted
+pub open spec fn tracker_wf_publish(t: &SnapshotTracker) -> bool { true }
